@@ -30,6 +30,9 @@ THEOREMS = [
     "IrVerif.Sort.C12_respects",
     "IrVerif.Sort.C12_cycle_iff",
     "IrVerif.Sort.C12_cycle_no_change",
+    "IrVerif.Sort.C12_fixpoint_graph",
+    "IrVerif.Sort.C12_fixpoint",
+    "IrVerif.Sort.C12_deterministic",
 ]
 ASSUMPTIONS = [
     "heapq on (negative position, node) pairs with distinct positions is modelled as extract-maximum-position; "
@@ -39,7 +42,8 @@ ASSUMPTIONS = [
     "a value is represented by what Graph.sort reads from it: input_value.producer()",
     "C12_fixpoint* assume well-scoped graphs (a value is used only inside the graph of its producer or graphs "
     "nested in it), as in the property's quantifier; ill-scoped graphs are covered by perm/respects/cycle only",
-    "reference attributes (value None) of type GRAPH/GRAPHS are outside the model (known finding D46)",
+    "reference attributes (value None) of type GRAPH/GRAPHS carry no graph: the model input skips them (defect D46, "
+    "fixed in /repo by 31ed6b5; a TypeError on such an attribute is reported with signature ...:ref-graph-attr:TypeError)",
 ]
 
 # --------------------------------------------------------------------------- specs
@@ -500,7 +504,15 @@ def run_real(b: Built, case):
         elif entry == "pass":
             from onnx_ir.passes.common.topological_sort import TopologicalSortPass
 
-            model = ir.Model(b.root, ir_version=10)
+            if case["sub"] % 2:
+                # the tree under test is a function body; the main graph is a trivial graph
+                x = ir.Value(name="main_x")
+                nmain = ir.Node("", "Id", [x], name="main_n")
+                main = ir.Graph([x], nmain.outputs, nodes=[nmain], name="main")
+                f = ir.Function("d", "f", graph=b.root, attributes=[])
+                model = ir.Model(main, ir_version=10, functions=[f])
+            else:
+                model = ir.Model(b.root, ir_version=10)
             b.keep.append(model)
             TopologicalSortPass()(model)
         elif entry == "subgraph":
@@ -560,7 +572,7 @@ def do_case(case, part):
 
     # ---- oracle
     if refg:
-        # graph-typed reference attribute: the traversal iterates `None` (known finding D46)
+        # graph-typed reference attribute: the unfixed traversal iterated `None` (D46, fixed by 31ed6b5)
         if outcome.startswith("raised:"):
             part.fail(f"{sig_entry}:ref-graph-attr:{outcome[7:]}", "sort raises on a reference attribute of graph type", rec)
             if after != before:
@@ -607,6 +619,7 @@ def do_case(case, part):
         "req": {"m": "sort.sort", "graph": req_graph},
         "ureq": {"m": "sort.universe", "graph": req_graph},
         "impl": "raised" if outcome == "raised" else [[g, after[g]] for g in tree],
+        "impl_after": [[g, after[g]] for g in tree],
         "impl_universe": impl_universe,
         "pre_universe": pre_universe,
         "case": case,
@@ -634,13 +647,45 @@ def _depth(spec):
     return d(spec)
 
 
+class _Hang(BaseException):
+    pass
+
+
+class time_limit:
+    """a real-code call that does not return within `sec` seconds (e.g. a corrupted node chain that is
+    iterated forever) is reported instead of hanging the check"""
+
+    def __init__(self, sec):
+        self.sec = sec
+
+    def _raise(self, *_a):
+        raise _Hang()
+
+    def __enter__(self):
+        import signal
+
+        self.old = signal.signal(signal.SIGALRM, self._raise)
+        signal.setitimer(signal.ITIMER_REAL, self.sec)
+
+    def __exit__(self, *exc):
+        import signal
+
+        signal.setitimer(signal.ITIMER_REAL, 0)
+        signal.signal(signal.SIGALRM, self.old)
+        return False
+
+
 def _chunk(args):
     cases = args
     part = Part()
     out = []
     for case in cases:
         try:
-            r = do_case(case, part)
+            with time_limit(20):
+                r = do_case(case, part)
+        except _Hang:
+            part.fail("sort:hang", "the real sort (or iterating its result) did not return within 20 s", {"case": case})
+            r = None
         except Exception as e:  # noqa: BLE001  harness problem on this case: report as disagreement-like info
             import traceback
 
@@ -651,9 +696,10 @@ def _chunk(args):
             case2 = dict(case, variant=(case["variant"] + 1 + case["sub"] % 3) % 4)
             p2 = Part()
             try:
-                gc.collect() if case["sub"] % 7 == 0 else None
-                r2 = do_case(case2, p2)
-            except Exception:  # noqa: BLE001
+                gc.collect() if case["sub"] % 61 == 0 else None
+                with time_limit(20):
+                    r2 = do_case(case2, p2)
+            except (_Hang, Exception):  # noqa: BLE001
                 r2 = None
             if r2 is not None and (r2["outcome"] != r["outcome"] or r2["after"] != r["after"]):
                 part.fail(
@@ -666,6 +712,9 @@ def _chunk(args):
 
 
 def check_cases(ctx: Ctx, cases: list) -> None:
+    import onnx_ir  # noqa: F401  (import before forking the workers)
+    import onnx_ir.passes.common.topological_sort  # noqa: F401
+
     k = max(1, (len(cases) + 15) // 16)
     chunks = [cases[i : i + k] for i in range(0, len(cases), k)]
     results = pmap(_chunk, chunks)
@@ -680,6 +729,8 @@ def check_cases(ctx: Ctx, cases: list) -> None:
         model = o.get("r", o)
         if model != r["impl"]:
             ctx.disagree("sort.sort: model != Graph.sort", r["case"], model, r["impl"])
+        if o.get("after") != r["impl_after"]:
+            ctx.disagree("sort.sort: node orders after the call differ (sortEffect)", r["case"], o.get("after"), r["impl_after"])
         mu = uo.get("r", uo)
         if mu != r["impl_universe"] and not isinstance(r["impl_universe"], str):
             ctx.disagree("sort.universe: model != RecursiveGraphIterator", r["case"], mu, r["impl_universe"])
@@ -705,7 +756,7 @@ def exhaustive_small(ctx: Ctx) -> list:
     # one level of nesting: outer nodes a,b (b owns a body with x,y); every subset of the visible-by-scope uses
     outer = [0, 1]
     inner = [2, 3]
-    uses = [(p, c) for p in outer + inner for c in inner] + [(p, c) for p in outer for c in outer]
+    uses = [(p, c) for p in outer + inner for c in inner] + [(0, 1), (1, 0)]
     for first in (0, 1):
         for mask in range(1 << len(uses)):
             nd = {i: {"i": i, "nout": 1, "in": [], "attrs": []} for i in outer + inner}
@@ -717,6 +768,44 @@ def exhaustive_small(ctx: Ctx) -> list:
             cases.append({"spec": spec, "mode": "exh-nest", "perm": "id", "entry": "graph", "variant": 0, "sub": mask})
     ctx.exhaustive_scopes.append("two outer nodes, the second owning a two-node body: every set of scope-visible uses, both outer orders")
     return cases
+
+
+def relink_cases(ctx: Ctx) -> None:
+    """`Graph.extend` with nodes the graph already holds (what step 5 of Graph.sort does) vs `relink`:
+    arbitrary selections with repeats, not only permutations"""
+    import onnx_ir as ir
+
+    reqs, impls, cases = [], [], []
+    for _ in range(ctx.pick(400, 4000)):
+        n = ctx.rng.randrange(0, 7)
+        nodes = [ir.Node("", "Op", [], name=f"n{i}") for i in range(n)]
+        g = ir.Graph([], [], nodes=nodes, name="g")
+        xs = [ctx.rng.randrange(n) for _ in range(ctx.rng.randrange(0, 2 * n + 1))] if n else []
+        if ctx.rng.random() < 0.3:
+            xs = list(range(n))
+            ctx.rng.shuffle(xs)
+        idx = {id(nd): i for i, nd in enumerate(nodes)}
+        case = {"relink": {"n": n, "xs": xs}}
+        try:
+            with time_limit(10):
+                g.extend([nodes[i] for i in xs])
+                impl = [idx[id(nd)] for nd, _ in zip(g, range(4 * n + 4))]
+        except _Hang:
+            ctx.fail("Graph.extend:hang", "re-linking existing nodes does not terminate", case)
+            continue
+        reqs.append({"m": "sort.relink", "cur": list(range(n)), "xs": xs})
+        impls.append(impl)
+        cases.append(case)
+    outs = lean_batch_parallel(reqs)
+    for case, impl, out in zip(cases, impls, outs):
+        ctx.case(case, nontrivial=len(case["relink"]["xs"]) > 0, fn="relink", relink_len=min(len(case["relink"]["xs"]), 8))
+        if out.get("r") != impl:
+            ctx.disagree("sort.relink: model != Graph.extend", case, out, impl)
+        xs = case["relink"]["xs"]
+        if sorted(impl) != list(range(case["relink"]["n"])):
+            ctx.fail("Graph.extend:nodes-lost", "re-linking existing nodes lost or duplicated a node", case)
+        if sorted(xs) == list(range(case["relink"]["n"])) and impl != xs:
+            ctx.fail("Graph.extend:perm", "extending with a permutation of the graph's nodes does not yield that permutation", case)
 
 
 def run(ctx: Ctx) -> None:
@@ -732,6 +821,7 @@ def run(ctx: Ctx) -> None:
     for _ in range(ctx.pick(2500, 40000)):
         cases.append(gen_case(ctx.rng, ctx.quick))
     check_cases(ctx, cases)
+    relink_cases(ctx)
 
 
 def replay(ctx: Ctx, obj: dict) -> None:
